@@ -132,6 +132,22 @@ class Watcher:
         p = self.file_of(d)
         if kind == "remove" and not os.path.exists(p):
             kind = "write"                      # nothing to remove: the file comes back instead
+        hist = self.__dict__.setdefault("texts", {}).setdefault(d, [(0, True, extra_text(0, True, d))])
+        if kind == "restore":
+            # put back, byte for byte, what the file held before the previous edit of this directory (Watch.tla: content' = prev)
+            ver, valid, text = hist[-2] if len(hist) >= 2 else hist[-1]
+            hist.append((ver, valid, text))
+            self.note("HEdit", kind="write" if text is not None else "remove", version=ver if ver is not None else self.version, valid=valid, dir=d, restore=True)
+            (self.broken.discard if valid else self.broken.add)(d)
+            if text is None:
+                if os.path.exists(p):
+                    os.remove(p)
+            else:
+                with open(p, "w") as f:
+                    f.write(text)
+            self.note("HEditDone", version=self.version)
+            return
+        hist.append((None, True, None) if kind == "remove" else (self.version, valid, extra_text(self.version, valid, d)))
         self.note("HEdit", kind=kind, version=self.version, valid=valid, dir=d)
         if valid:
             self.broken.discard(d)
@@ -446,9 +462,17 @@ def main():
     for g, share in zip(groups, (0.2, 0.3, 0.35, 0.15)):
         chosen += g[:max(4, int(budget * share))]
     # every kind of edit also as the LAST edit of some schedules (a save that is not picked up only shows when nothing follows it)
-    for kind in ("write", "remove", "rename"):
+    for kind in ("write", "remove", "rename", "restore"):
         extra = [x for x in scheds if x not in chosen and [t for t in x[0] if t["a"] == "edit"][-1]["kind"] == kind]
         chosen += extra[:6 if not thorough else 30]
+    # ... and every ordered pair of edit kinds (remove then restore brings back files that were generated, deleted and are due again)
+    seen_pairs = set()
+    for x in scheds:
+        ks = tuple(t["kind"] for t in x[0] if t["a"] == "edit")
+        if len(ks) == 2 and ks not in seen_pairs and x[1]:
+            seen_pairs.add(ks)
+            if x not in chosen:
+                chosen.append(x)
 
     def expected_for(final_dir, idx):
         d = os.path.join(sc, "oneshot%d" % idx)
